@@ -849,6 +849,10 @@ def gen_base(ctx, rng, i):
                 v.append(rest.pop())
         ctx.count('pipeline:markers>=3')
     else:
+        # some parents with exactly 2 markers: exercises the near-tie policy
+        for k in sorted(markers):
+            if rng.random() < 0.5:
+                markers[k] = markers[k][:2]
         ctx.count('pipeline:markers>=2')
     X = mp.X.copy()
     col = {g: j for j, g in enumerate(mp.query_genes)}
@@ -989,7 +993,7 @@ def run(ctx):
     rng = ctx.rng
     quick = ctx.tier == 'quick'
     n_unit = 150 if quick else 1500
-    n_base = 8 if quick else 50
+    n_base = 12 if quick else 120
     with warnings.catch_warnings():
         warnings.simplefilter('ignore')
         with pipeline.workdir(prefix='ctmverif_c07_') as scratch:
